@@ -17,6 +17,7 @@ from dissect.cstruct.types.base import (
     _is_buffer_type,
     _is_readable_type,
 )
+from dissect.cstruct.types.char import Char
 from dissect.cstruct.types.enum import EnumMetaType
 from dissect.cstruct.types.pointer import Pointer
 
@@ -850,7 +851,11 @@ def _generate_structure__init__(fields: list[Field]) -> FunctionType:
     template: FunctionType = _make_structure__init__(len(field_names))
     return type(template)(
         template.__code__.replace(
-            co_consts=(None, *[field.type.__default__() for field in fields]),
+            # Bit fields of a char storage unit are read and written as integers, so they default to one too
+            co_consts=(
+                None,
+                *[0 if field.bits and issubclass(field.type, Char) else field.type.__default__() for field in fields],
+            ),
             co_names=(*field_names,),
             co_varnames=("self", *field_names),
         ),
